@@ -325,6 +325,17 @@ CHECKS["C39"] = (
     "Numerical equality and sub-pixel interpolation are not decided.",
 )
 
+CHECKS["C03"] = (
+    "table/order agreement between each ensemble's `distributions` tuple, the argument order its kernel passes to "
+    "_unpack_distributions, and the order of its ensemble-axes metadata (recursively through CTF components); "
+    "structural rules for _unpack_distributions and the rebuild key/value order",
+    "Decides that array axes, ensemble shape, partition order, rebuild keys and axis metadata of every "
+    "distribution-parametrised ensemble follow one order, that axis metadata lists the distribution's own values in "
+    "order, that the i-th distribution occupies axis i with aligned values and weights (weights multiplied), and "
+    "that blocks are rebuilt from zip(keys, slices) of the same dict.",
+    "That member i equals the scalar run numerically, and weighted means, are not decided.",
+)
+
 NOT_APPLICABLE = {
     "C25": "consistency of each parametrization's real- and reciprocal-space forms is an analytic Fourier-"
            "transform identity between tabulated-coefficient kernels plus monotonicity over table data; no "
